@@ -720,6 +720,20 @@ func genContract(g *genCtx, c *Contract, out *strings.Builder) error {
 	var olds []string
 	var pre, post []string
 	for _, r := range c.Requires {
+		if strings.TrimSpace(r.expr) == "$args" {
+			// every parameter that carries script values is well formed
+			for i, n := range pnames {
+				switch ts := g.typeStr(ptypes[i]); ts {
+				case "Object":
+					pre = append(pre, fmt.Sprintf("\tverifrt.Assume(validObj(%s))\n", n))
+				case "Call":
+					pre = append(pre, fmt.Sprintf("\tverifrt.Assume(specCallOK(%s))\n", n))
+				case "[]Object":
+					pre = append(pre, fmt.Sprintf("\tverifrt.Assume(specObjsOK(%s))\n", n))
+				}
+			}
+			continue
+		}
 		pre = append(pre, fmt.Sprintf("\tverifrt.Assume(%s)\n", prep(r.expr, nil)))
 	}
 	for i, cv := range c.Covers {
